@@ -21,10 +21,10 @@ var propSpecs = []propSpec{
 	{
 		id: "C01",
 		runs: []runSpec{
-			{dir: "mux", entry: "ZZC01", quick: seq(0, []int{0, 1, 2, 3, 4, 5, 6, 7, 8, 9, 10, 11, 12, 13, 14, 15, 16, 17, 18, 19, 20, 21, 22}, 8), thorough: seq(0, []int{0, 1, 2, 3, 4, 5, 6, 7, 8, 9, 10, 11, 12, 13, 14, 15, 16, 17, 18, 19, 20, 21, 22}, 10)},
+			{dir: "mux", entry: "ZZC01", quick: seq(0, []int{0, 1, 2, 3, 4, 5, 6, 7, 8, 9, 10, 11, 12, 13, 14, 15, 16, 17, 18, 19, 20, 21, 22, 23}, 8), thorough: seq(0, []int{0, 1, 2, 3, 4, 5, 6, 7, 8, 9, 10, 11, 12, 13, 14, 15, 16, 17, 18, 19, 20, 21, 22, 23}, 10)},
 		},
 		covers:  []string{"404", "405", "options", "options-star", "served", "served-with-params"},
-		bounds:  "request path: every byte string of length <= 8 (all 256 byte values); method: each of GET HEAD POST OPTIONS DELETE PUT TRACE \"\" BOGUS plus every string of <= 3 free bytes; 23 route-table histories (Handle/Remove/Clean/Prefix.Clean, <= 10 operations) over literal, named, regexp (also with capture groups of their own), interceptor, ignored-name, endpoint, non-ASCII-literal and >=5-sibling shapes; interceptors digit/word/any and an arbitrary user-defined interceptor (an uninterpreted predicate: the verdict holds for every pure interceptor function; a counterexample carries the function table of the model)",
+		bounds:  "request path: every byte string of length <= 8 (all 256 byte values); method: each of GET HEAD POST OPTIONS DELETE PUT TRACE \"\" BOGUS plus every string of <= 3 free bytes; 24 route-table histories (Handle/Remove/Clean/Prefix.Clean, <= 10 operations) over literal, named, regexp (also with capture groups of their own), interceptor, ignored-name, endpoint, non-ASCII-literal and >=5-sibling shapes; interceptors digit/word/any and an arbitrary user-defined interceptor (an uninterpreted predicate: the verdict holds for every pure interceptor function; a counterexample carries the function table of the model)",
 		boundsT: "as quick, request path length <= 10",
 		outside: "longer paths; route tables other than the 8 listed histories; regexp rules other than \\d+ [a-z]+ [a-c]+ \\w* a|b a|bc; interceptor functions with side effects; patterns with braces in literal text; for patterns with '-' (ignored) parameters the path is matched against an anchored expression built from the pattern instead of being reconstructed",
 		assume:  []string{"patterns are well-formed"},
@@ -70,7 +70,7 @@ var propSpecs = []propSpec{
 	{
 		id: "C05",
 		runs: []runSpec{
-			{dir: "mux", entry: "ZZC05Req", quick: seq(0, []int{0, 1, 2, 3, 4, 5, 6, 7, 8, 9, 10, 11, 12, 13, 14, 15, 16, 17, 18, 19, 20, 21, 22}, 8), thorough: seq(0, []int{0, 1, 2, 3, 4, 5, 6, 7, 8, 9, 10, 11, 12, 13, 14, 15, 16, 17, 18, 19, 20, 21, 22}, 11)},
+			{dir: "mux", entry: "ZZC05Req", quick: seq(0, []int{0, 1, 2, 3, 4, 5, 6, 7, 8, 9, 10, 11, 12, 13, 14, 15, 16, 17, 18, 19, 20, 21, 22, 23}, 8), thorough: seq(0, []int{0, 1, 2, 3, 4, 5, 6, 7, 8, 9, 10, 11, 12, 13, 14, 15, 16, 17, 18, 19, 20, 21, 22, 23}, 11)},
 			{dir: "mux", entry: "ZZC05Grp", quick: []int{33}, thorough: []int{54}},
 			{dir: "mux", entry: "ZZC05Host", quick: []int{6}, thorough: []int{9}},
 			{dir: "mux", entry: "ZZC05Ver", quick: []int{6}, thorough: []int{10}},
@@ -79,7 +79,7 @@ var propSpecs = []propSpec{
 			{dir: "mux", entry: "ZZC07Wide", quick: []int{2}, thorough: []int{3}},
 		},
 		covers:  []string{"request", "group-request", "host-match", "version-match", "handle-registered", "handle-rejected", "rule-accepted", "rule-rejected", "rule-served", "after-a-wide-request"},
-		bounds:  "Router.ServeHTTP: path = every byte string <= 8 bytes (incl. \"\", \"*\", non-UTF-8), method = every byte string <= 4 bytes, on the 23 route-table histories of C01 (which include Remove/Clean/Prefix.Clean states); Group.ServeHTTP with Hosts, path-version, header-version and And matchers: Host <= 3 ASCII bytes, path <= 3 bytes, 5 methods, 6 Accept headers; Hosts.Match: Host <= 6 ASCII bytes on 9 domains after a Delete; path-version matcher: path <= 6 bytes; patterns: every byte string <= 6 bytes into CheckSyntax, URL, Router.URL (strict and not), Handle on an empty and on a populated router; regexp rules: every string of <= 3 symbols over {a ( ) | ? * \\ b} and of <= 5 symbols over {a ( ) | b} as the rule of /{id:rule} with and without a literal suffix - whatever Handle accepts must then serve every path of <= 2-3 bytes without a fault; a request capturing 30-32 parameters followed by one with a symbolic value",
+		bounds:  "Router.ServeHTTP: path = every byte string <= 8 bytes (incl. \"\", \"*\", non-UTF-8), method = every byte string <= 4 bytes, on the 24 route-table histories of C01 (which include Remove/Clean/Prefix.Clean states); Group.ServeHTTP with Hosts, path-version, header-version and And matchers: Host <= 3 ASCII bytes, path <= 3 bytes, 5 methods, 6 Accept headers; Hosts.Match: Host <= 6 ASCII bytes on 9 domains after a Delete; path-version matcher: path <= 6 bytes; patterns: every byte string <= 6 bytes into CheckSyntax, URL, Router.URL (strict and not), Handle on an empty and on a populated router; regexp rules: every string of <= 3 symbols over {a ( ) | ? * \\ b} and of <= 5 symbols over {a ( ) | b} as the rule of /{id:rule} with and without a literal suffix - whatever Handle accepts must then serve every path of <= 2-3 bytes without a fault; a request capturing 30-32 parameters followed by one with a symbolic value",
 		boundsT: "paths <= 11, Group host <= 5 / path <= 4, Hosts host <= 9, patterns <= 8 bytes",
 		outside: "longer inputs (the math.MaxInt16 segment limit is not reachable); Host bytes >= 0x80 (strings.ToLower is modelled for ASCII only); arbitrary Accept headers (mime.ParseMediaType runs natively on 6 concrete headers); panics raised by user handlers or interceptors",
 		assume:  []string{"regexp.Compile on a symbolic expression is an uninterpreted, consistent function of its bytes that never panics"},
@@ -114,13 +114,13 @@ var propSpecs = []propSpec{
 	{
 		id: "C09",
 		runs: []runSpec{
-			{dir: "mux", entry: "ZZC09", quick: []int{1, 2, 3, 103}, thorough: []int{1, 2, 3, 4, 104}, mapRev: true},
+			{dir: "mux", entry: "ZZC09", quick: []int{1, 2, 3, 103, 1002, 1003}, thorough: []int{1, 2, 3, 4, 104, 1002, 1003, 1004}, mapRev: true},
 			{dir: "mux", entry: "ZZC09Grp", quick: []int{2, 3, 4, 5}, thorough: []int{2, 3, 4, 5, 6}},
 		},
 		covers:  []string{"program", "use-and-routes", "group-program", "group-router-A", "group-router-B"},
 		bounds:  "every program of <= 3 calls from 10 operations (two nested prefixes built from one caller-owned middleware slice with spare capacity, Use with 1 or 2 middlewares, Handle with 2 route middlewares, Post without, Prefix with 2 + route middleware, nested Prefix.Prefix, Resource (GET with and POST without route middleware), Prefix.Resource, Any), with and without WithTrace and in both map iteration orders; every group program of <= 5 calls from 6 operations (Group.Use, Group.New, Group.Add of a router with its own Use and route, Handle, router Use, Prefix(\"\").Post); then every handler kind of every route (methods, HEAD, OPTIONS, 405, 404, OPTIONS *, TRACE, group not-found) is invoked and its middleware chain, factory arguments and the factory invocation count are compared with the documented order computed from the program text",
 		boundsT: "programs of <= 4 calls, group programs of <= 6 calls",
-		outside: "longer programs; removal of routes between Use calls; this property has no data dimension: the verdict is an exhaustive bounded exploration of the real SSA by forking on operation selectors, the solver only confirms path feasibility",
+		outside: "longer programs; removal of routes between Use calls other than the one removal of the pre-populated table; this property has no data dimension: the verdict is an exhaustive bounded exploration of the real SSA by forking on operation selectors, the solver only confirms path feasibility",
 		stubs:   stdStubs,
 	},
 	{
@@ -130,7 +130,7 @@ var propSpecs = []propSpec{
 			{dir: "mux", entry: "ZZC10RT", quick: []int{8}, thorough: []int{10}},
 		},
 		covers:  []string{"non-empty-params", "strict-must-fail", "strict-must-succeed", "round-trip", "round-trip-with-params"},
-		bounds:  "18 patterns (8 live routes covering regexp in the middle and at the end, named, digit/word interceptors, ignored name, regexp + literal suffix; an inner tree node, a node whose methods were removed by name, an unregistered pattern, a prefix of a live route; 6 malformed forms) x every params map (each key present or absent with every value of <= 3 bytes, optional extra key, empty map) x strict/non-strict x 3 URL-domain settings; round trip: every request path of <= 8 bytes dispatched by a 9-route router, rebuilt with URL and strict Router.URL from the captured parameters",
+		bounds:  "20 patterns (9 live routes incl. an ignored parameter whose name starts with '-' covering regexp in the middle and at the end, named, digit/word interceptors, ignored name, regexp + literal suffix; an inner tree node, a node whose methods were removed by name, an unregistered pattern, a prefix of a live route; 6 malformed forms) x every params map (each key present or absent with every value of <= 3 bytes, optional extra key, empty map) x strict/non-strict x 3 URL-domain settings; round trip: every request path of <= 8 bytes dispatched by a 9-route router, rebuilt with URL and strict Router.URL from the captured parameters",
 		boundsT: "values <= 4 bytes, round-trip paths <= 10 bytes",
 		outside: "other patterns; regexp rules with alternations whose leftmost-first match is shorter than a full match; Prefix.URL / Resource.URL (C19)",
 		stubs:   stdStubs,
@@ -138,24 +138,24 @@ var propSpecs = []propSpec{
 	{
 		id: "C11",
 		runs: []runSpec{
-			{dir: "mux", entry: "ZZC11", quick: []int{10001, 10101, 10203, 10303, 11001, 11101, 11203, 11303, 12001, 12101, 12203, 12303, 13001, 13101, 13203, 13303, 14001, 14101, 14203, 14303, 15001, 16001, 17001, 18001, 12403, 13403, 12501},
-				thorough: []int{10002, 10102, 10205, 10305, 11002, 11102, 11205, 11305, 12002, 12102, 12205, 12305, 13002, 13102, 13205, 13305, 14002, 14102, 14205, 14305, 15002, 16002, 17002, 18002, 12405, 13405}},
+			{dir: "mux", entry: "ZZC11", quick: []int{10001, 10101, 10203, 11001, 11101, 11203, 11303, 12001, 12101, 12203, 12303, 13001, 13101, 13303, 14001, 14101, 14303, 15001, 16001, 17001, 18001, 12403, 12501},
+				thorough: []int{10001, 10101, 10203, 10303, 11001, 11101, 11203, 11303, 12001, 12101, 12203, 12303, 13001, 13101, 13203, 13303, 14001, 14101, 14203, 14303, 15001, 16001, 17001, 18001, 12403, 13403, 12501, 12204, 12304}},
 		},
 		covers:  []string{"deny", "404-405", "preflight-unserved-method", "preflight-disallowed-header"},
-		bounds:  "WithCORS with 5 origin lists x 4 allow-header lists (and a mixed-case two-name list on two origin lists), plus WithAllowedCORS, WithDenyCORS and two option sequences in which a later CORS option overrides an earlier one, x 3 (exposed, credentials, max-age) settings with max-age a symbolic int in [1,99999]; requests: GET/HEAD/POST/OPTIONS/empty method on a live route, GET and OPTIONS on a route registered on \"/\", OPTIONS *, an unknown path; Origin absent or every string of <= 2 bytes (so it can equal a configured origin); Access-Control-Request-Method absent / GET / PUT / every string of <= 3 bytes; Access-Control-Request-Headers absent, 4 fixed spellings (lower case, lists, mixed case with spaces) and every string of <= 3 visible-ASCII/HTAB bytes (<= 1 for the configurations without an allow-list); reference: own list parser (split on ',', trim OWS, ASCII case-insensitive)",
-		boundsT: "free Access-Control-Request-Headers <= 5 bytes",
+		bounds:  "WithCORS with 5 origin lists x 4 allow-header lists (and a mixed-case two-name list on two origin lists), plus WithAllowedCORS, WithDenyCORS and two option sequences in which a later CORS option overrides an earlier one, x 3 (exposed, credentials, max-age) settings with max-age a symbolic int in [1,99999]; requests: GET/HEAD/POST/OPTIONS/empty method on a live route, GET and OPTIONS on a route registered on \"/\", OPTIONS *, an unknown path; Origin absent, every string of <= 2 bytes (so it can equal a configured origin) or, for the two-origin list, its 73-byte second origin verbatim; OPTIONS with an empty request path (absolute-form target, C11 only); Access-Control-Request-Method absent / GET / PUT / every string of <= 3 bytes; Access-Control-Request-Headers absent, 4 fixed spellings (lower case, lists, mixed case with spaces) and every string of <= 3 visible-ASCII/HTAB bytes (<= 1 for the configurations without an allow-list), and for the allow-list {X-Id, X-A} four concrete header lists whose names differ from an allowed name only by a non-ASCII letter with an ASCII case mapping (U+0130, U+0131); reference: own list parser (split on ',', trim OWS, ASCII case-insensitive)",
+		boundsT: "every origin-list x allow-list combination with free Access-Control-Request-Headers <= 3 bytes, <= 4 bytes on the single-origin configuration",
 		outside: "header values with bytes outside visible ASCII / HTAB; longer free header values; origins longer than 2 bytes",
 		stubs:   append(append([]string{}, stdStubs...), "strings.TrimSpace: byte-wise model exact for ASCII; strconv.Itoa on the symbolic max-age: digit-wise model"),
 	},
 	{
 		id: "C12",
 		runs: []runSpec{
-			{dir: "mux", entry: "ZZC11", quick: []int{21001, 21101, 21203, 21303, 22001, 22101, 22203, 22303, 23001, 23101, 23203, 23303, 24001, 24101, 24203, 24303, 25001, 28001, 22403, 23403},
-				thorough: []int{21002, 21102, 21205, 21305, 22002, 22102, 22205, 22305, 23002, 23102, 23205, 23305, 24002, 24102, 24205, 24305, 25002, 28002, 22405, 23405}},
+			{dir: "mux", entry: "ZZC11", quick: []int{21001, 21101, 21203, 21303, 22001, 22101, 22203, 22303, 23001, 23101, 23303, 24001, 24101, 24303, 25001, 28001, 22403, 32101, 33101},
+				thorough: []int{21001, 21101, 21203, 21303, 22001, 22101, 22203, 22303, 23001, 23101, 23203, 23303, 24001, 24101, 24203, 24303, 25001, 28001, 22403, 23403, 32101, 33101, 32203, 22204, 22304}},
 		},
 		covers:  []string{"grant", "preflight-grant", "not-a-preflight"},
-		bounds:  "as C11 restricted to the 4 non-empty origin lists; asserted: Allow-Origin/Credentials/Expose-Headers exactly as configured for allowed origins, Allow-Methods = the route's Allow set, Allow-Headers and Max-Age (symbolic int, compared through strconv.Itoa) on accepted preflights only, Vary naming Origin / Access-Control-Request-Method / Access-Control-Request-Headers",
-		boundsT: "free Access-Control-Request-Headers <= 5 bytes",
+		bounds:  "as C11 restricted to the 4 non-empty origin lists, plus two configurations explored after a request whose handler added values of its own to every CORS response header (they must not show in later responses); asserted: Allow-Origin/Credentials/Expose-Headers exactly as configured for allowed origins, Allow-Methods = the route's Allow set, Allow-Headers and Max-Age (symbolic int, compared through strconv.Itoa) on accepted preflights only, Vary naming Origin / Access-Control-Request-Method / Access-Control-Request-Headers",
+		boundsT: "every origin-list x allow-list combination with free Access-Control-Request-Headers <= 3 bytes, <= 4 bytes on the single-origin configuration",
 		outside: "as C11; header lists with empty elements are not required to be granted",
 		stubs:   append(append([]string{}, stdStubs...), "strings.TrimSpace, strings.EqualFold (from its own SSA, ASCII path); strconv.Itoa digit-wise model"),
 	},
@@ -188,7 +188,7 @@ var propSpecs = []propSpec{
 			{dir: "mux", entry: "ZZC15Hdr", quick: []int{3}, thorough: []int{3}},
 		},
 		covers:  []string{"version-accepted", "version-rejected", "header-accepted", "header-rejected"},
-		bounds:  "path version: 1-2 version strings of 1-3 arbitrary bytes each (leading/trailing '/', v1/v11 overlaps, '/' inside), with and without a parameter name, path = every string of <= 6 bytes, a pre-existing context parameter; header version: with/without parameter name and custom key, Accept = 7 table entries (absent, garbage, quoted value, other parameters, duplicate parameter) or 'a/b; <key>=' followed by every token string of <= 3 bytes over [a-z0-9._-]",
+		bounds:  "path version: 1-2 version strings of 1-3 arbitrary bytes each (leading/trailing '/', v1/v11 overlaps, '/' inside), with and without a parameter name, path = every string of <= 6 bytes, a pre-existing context parameter; header version: with/without parameter name and custom key, Accept = 14 table entries (absent, garbage, quoted value, other parameters, duplicate parameter, upper-case parameter names, five malformed media types in front of a listed version) or 'a/b; <key>=' followed by every token string of <= 3 bytes over [a-z0-9._-]",
 		boundsT: "paths <= 8 bytes",
 		outside: "arbitrary Accept bytes (mime.ParseMediaType is the real function on concrete headers and an exact model for a symbolic token-valued last parameter only)",
 		stubs:   append(append([]string{}, stdStubs...), "mime.ParseMediaType: real function on concrete input; for '<concrete>; key=<symbolic token bytes>' the parameter value is the symbolic tail (validated natively on every run)"),
@@ -208,11 +208,11 @@ var propSpecs = []propSpec{
 	{
 		id: "C18",
 		runs: []runSpec{
-			{dir: "mux", entry: "ZZC18", quick: append(seq(50, []int{0, 1, 2, 3, 4, 5, 6, 7, 8, 9, 10, 11, 12, 13, 14, 15, 16, 17, 18, 19, 20, 21, 22}, 6), seq(0, []int{0, 1, 2, 3, 4, 5, 6, 7, 8, 9, 10, 11, 12, 13, 14, 15, 16, 17, 18, 19, 20, 21, 22}, 6)...), thorough: append(seq(50, []int{0, 1, 2, 3, 4, 5, 6, 7, 8, 9, 10, 11, 12, 13, 14, 15, 16, 17, 18, 19, 20, 21, 22}, 9), seq(0, []int{0, 1, 2, 3, 4, 5, 6, 7, 8, 9, 10, 11, 12, 13, 14, 15, 16, 17, 18, 19, 20, 21, 22}, 9)...)},
+			{dir: "mux", entry: "ZZC18", quick: append(seq(50, []int{0, 1, 2, 3, 4, 5, 6, 7, 8, 9, 10, 11, 12, 13, 14, 15, 16, 17, 18, 19, 20, 21, 22, 23}, 6), seq(0, []int{0, 1, 2, 3, 4, 5, 6, 7, 8, 9, 10, 11, 12, 13, 14, 15, 16, 17, 18, 19, 20, 21, 22, 23}, 6)...), thorough: append(seq(50, []int{0, 1, 2, 3, 4, 5, 6, 7, 8, 9, 10, 11, 12, 13, 14, 15, 16, 17, 18, 19, 20, 21, 22, 23}, 9), seq(0, []int{0, 1, 2, 3, 4, 5, 6, 7, 8, 9, 10, 11, 12, 13, 14, 15, 16, 17, 18, 19, 20, 21, 22, 23}, 9)...)},
 			{dir: "trace", entry: "ZZC18Helper", quick: []int{0, 1, 2}, thorough: []int{0, 1, 2}},
 		},
 		covers:  []string{"trace-configured", "trace-not-configured", "dump-ok", "dump-error"},
-		bounds:  "TRACE request with every path of <= 6 bytes on the 23 table histories of C01 between two Use calls, with WithTrace (configured handler, exactly the Use middlewares with arguments TRACE/\"\"/router, no parameters, manual registration refused, TRACE in every Allow set incl. OPTIONS *) and without (404/405 per the documented resolution, TRACE registrable and then served); helper: httputil.DumpRequest nondeterministic (arbitrary error, or arbitrary dump of <= 3 bytes incl. HTML metacharacters), status 200, Content-Type read from the header snapshot taken at WriteHeader, body = html.EscapeString(dump), error passthrough, without body and with a body of undeclared and of declared length",
+		bounds:  "TRACE request with every path of <= 6 bytes on the 24 table histories of C01 between two Use calls, with WithTrace (configured handler, exactly the Use middlewares with arguments TRACE/\"\"/router, no parameters, manual registration refused, TRACE in every Allow set incl. OPTIONS *) and without (404/405 per the documented resolution, TRACE registrable and then served); helper: httputil.DumpRequest nondeterministic (arbitrary error, or arbitrary dump of <= 3 bytes incl. HTML metacharacters), status 200, Content-Type read from the header snapshot taken at WriteHeader, body = html.EscapeString(dump), error passthrough, without body and with a body of undeclared and of declared length",
 		boundsT: "paths <= 9 bytes",
 		outside: "the content of real request dumps (httputil.DumpRequest is stubbed; natively it is the real function)",
 		stubs:   append(append([]string{}, stdStubs...), "net/http/httputil.DumpRequest: arbitrary error or arbitrary <= 3 bytes, deterministic per request; html.EscapeString: byte-wise model of the five replacements"),
@@ -246,11 +246,12 @@ var propSpecs = []propSpec{
 	{
 		id: "C06",
 		runs: []runSpec{
-			{dir: "mux", entry: "ZZC06", quick: []int{0,1,2,3,4,5,10,11,12,13,14,15,20,21,22,23,24,25,30,31,32,33,34,35,40,41,42,43,44,45,50,51,52,53,54,55,1000,1002,1020,1022,1030,1032,16709,17609,13609,16309,12709,18909,60,62,65,70,72,75}, thorough: []int{0,1,2,3,4,5,10,11,12,13,14,15,20,21,22,23,24,25,30,31,32,33,34,35,40,41,42,43,44,45,50,51,52,53,54,55,1000,1002,1020,1022,1030,1032,100,101,102,110,111,112,130,131,132,16709,17609,13609,16309,12709,18909,60,62,65,70,72,75,16700,18900}},
+			{dir: "mux", entry: "ZZC06", quick: []int{0, 1, 2, 3, 4, 5, 10, 11, 12, 13, 14, 15, 20, 21, 22, 23, 24, 25, 30, 31, 32, 33, 34, 35, 40, 41, 42, 43, 44, 45, 50, 51, 52, 53, 54, 55, 1000, 1002, 1020, 1022, 1030, 1032, 16709, 17609, 13609, 16309, 12709, 18909, 60, 62, 65, 70, 72, 75}, thorough: []int{0, 1, 2, 3, 4, 5, 10, 11, 12, 13, 14, 15, 20, 21, 22, 23, 24, 25, 30, 31, 32, 33, 34, 35, 40, 41, 42, 43, 44, 45, 50, 51, 52, 53, 54, 55, 1000, 1002, 1020, 1022, 1030, 1032, 100, 101, 102, 110, 111, 112, 130, 131, 132, 16709, 17609, 13609, 16309, 12709, 18909, 60, 62, 65, 70, 72, 75, 16700, 18900}},
+			{dir: "mux", entry: "ZZC06RR", quick: []int{1, 12, 23, 33, 34, 35, 37, 44, 55, 56, 57, 134, 103, 256, 201}, thorough: []int{1, 12, 23, 33, 34, 35, 37, 44, 55, 56, 57, 77, 134, 103, 137, 155, 256, 201, 234, 207}},
 		},
-		covers:  []string{"interleaving"},
+		covers:  []string{"interleaving", "two-readers"},
 		race:    true,
-		bounds:  "router created with WithLock(true) holding 3 routes; 2 logical threads: one writer (Handle that splits an untouched route's node, Handle of a method on the toggled route, Remove, Remove+Handle toggle, Clean, a Handle rejected as ambiguous) x one reader (ServeHTTP of the toggled route with GET and POST, of an untouched literal route, of an untouched parameter route, Routes(), strict URL), all 36 pairs plus the writers Remove(GET) and Remove+Handle(POST) with three readers; 6 two-request readers; 6 pairs of writers without a reader whose final table must be the result of some serial order of their operations (incl. two registrations through different Prefix objects that share a caller-owned middleware slice); deadlocks (sync.RWMutex with writer preference: a waiting Lock blocks new readers) are reported; the schedule is a symbolic choice at every lock operation and every schedule at that granularity is explored; a happens-before monitor (vector clocks over lock/unlock, pool put/get, thread start/join) checks every heap access of the interpreted code; each response must be one a sequential router could produce",
+		bounds:  "router created with WithLock(true) holding 3 routes; 2 logical threads: one writer (Handle that splits an untouched route's node, Handle of a method on the toggled route, Remove, Remove+Handle toggle, Clean, a Handle rejected as ambiguous) x one reader (ServeHTTP of the toggled route with GET and POST, of an untouched literal route, of an untouched parameter route, Routes(), strict URL), all 36 pairs plus the writers Remove(GET) and Remove+Handle(POST) with three readers; 6 two-request readers; 6 pairs of writers without a reader whose final table must be the result of some serial order of their operations (incl. two registrations through different Prefix objects that share a caller-owned middleware slice); 15 pairs of readers running at the same time (ServeHTTP, Routes(), strict URL of two different routes incl. one that runs an interceptor, non-strict URL of patterns never seen before), alone and next to a splitting registration or the toggle; deadlocks (sync.RWMutex with writer preference: a waiting Lock blocks new readers) are reported; the schedule is a symbolic choice at every lock operation and every schedule at that granularity is explored; a happens-before monitor (vector clocks over lock/unlock, pool put/get, thread start/join) checks every heap access of the interpreted code; each response must be one a sequential router could produce",
 		boundsT: "as quick plus 9 scenarios with 3 threads (two writers and a reader)",
 		outside: "more threads or operations per thread; preemption inside a critical section is covered by the race monitor, not by the functional clause; Router.Use concurrent with anything; user code that reads Node().Methods()/AllowHeader() of a route while that route's methods are being changed; weak-memory effects beyond the Go memory model's definition of a data race",
 		assume:  []string{"sync.RWMutex and sync.Pool behave as the Go memory model documents (engine models)"},
@@ -264,6 +265,7 @@ var propSpecs = []propSpec{
 			{dir: "mux", entry: "ZZC07Nested", quick: []int{2}, thorough: []int{3}},
 			{dir: "mux", entry: "ZZC07Wide", quick: []int{2}, thorough: []int{3}},
 			{dir: "mux", entry: "ZZC08Rec", quick: []int{2}, thorough: []int{3}},
+			{dir: "mux", entry: "ZZC09Grp", quick: []int{4, 5}, thorough: []int{4, 5, 6}}, // sibling routers of a group: what one is given never shows in the other
 			{dir: "mux", entry: "ZZC07Par", quick: []int{0, 1, 2, 3, 10, 12}, thorough: []int{0, 1, 2, 3, 10, 12}},
 		},
 		covers:  []string{"foreign-activity", "pooled-request-served", "nested-request", "after-a-wide-request", "par-two-routers", "par-router-and-hosts", "par-build-and-serve", "par-shared-options", "par-requests"},
